@@ -134,6 +134,70 @@ pub fn child_main() {
     });
 }
 
+/// child-process entry (stdout is discarded by the parent, the verdict goes to stderr): the transcript is taken once without
+/// any interference and then three times while another thread of this process calls EGraph::dump() on an e-graph of its own in a
+/// loop (dump prints to the process's stdout, which is why this runs in a child); all four must be identical
+pub fn child_under_dump_main() {
+    crate::engine::install_panic_hook();
+    let mut s = String::new();
+    std::io::Read::read_to_string(&mut std::io::stdin(), &mut s).unwrap();
+    let c: Mixed = serde_json::from_str(&s).expect("case");
+    let run = |c: &Mixed| -> String {
+        let c2 = c.clone();
+        std::thread::Builder::new().stack_size(48 << 20).spawn(move || transcript(&c2, false)).unwrap().join().unwrap_or_else(|_| "panic".into())
+    };
+    let t0 = run(&c);
+    let stop = Arc::new(AtomicBool::new(false));
+    let stop2 = stop.clone();
+    let dumper = std::thread::spawn(move || {
+        let mut eg: EGraph<Arith> = EGraph::default();
+        for j in 0..12 {
+            eg.add_expr(RecExpr::parse(&format!("(add (var $q0) (mul {} (lam $z (app (var $z) (var $q1)))))", j)).unwrap());
+        }
+        while !stop2.load(Ordering::Relaxed) {
+            eg.dump();
+        }
+    });
+    let mut verdict = "SAME".to_string();
+    for k in 0..3 {
+        let t = run(&c);
+        if t != t0 {
+            verdict = format!("DIFF replay {} while another thread is inside EGraph::dump(): {}", k, first_diff(&t0, &t));
+            break;
+        }
+    }
+    stop.store(true, Ordering::Relaxed);
+    let _ = dumper.join();
+    eprintln!("SEV-UNDER-DUMP {}", verdict);
+}
+
+fn run_under_dump(c: &Mixed, obs: &mut Obs) -> Result<(), String> {
+    let exe = std::env::current_exe().map_err(|e| e.to_string())?;
+    let input = serde_json::to_string(c).unwrap();
+    let mut child = std::process::Command::new(&exe)
+        .arg("transcript-under-dump")
+        .stdin(std::process::Stdio::piped())
+        .stdout(std::process::Stdio::null())
+        .stderr(std::process::Stdio::piped())
+        .spawn()
+        .map_err(|e| e.to_string())?;
+    child.stdin.take().unwrap().write_all(input.as_bytes()).map_err(|e| e.to_string())?;
+    let o = child.wait_with_output().map_err(|e| e.to_string())?;
+    let err = String::from_utf8_lossy(&o.stderr).to_string();
+    let Some(line) = err.lines().find(|l| l.starts_with("SEV-UNDER-DUMP ")) else {
+        // the child died without a verdict (not a statement about reproducibility): the case is not judged
+        obs.label("child-without-verdict");
+        return Ok(());
+    };
+    obs.cmp(3);
+    let v = &line["SEV-UNDER-DUMP ".len()..];
+    if v != "SAME" {
+        return Err(v.to_string());
+    }
+    obs.nontrivial = true;
+    Ok(())
+}
+
 fn interfere(stop: Arc<AtomicBool>, k: usize) {
     // unrelated e-graph work: other languages, fresh slots, other symbols
     let mut i = 0u64;
@@ -339,6 +403,21 @@ pub fn property(tier: Tier) -> Property {
             panic_is_violation: false,
             render: |c: &ProcCase| format!("{} preintern_variation={}", c.base.render(), c.preintern_variation),
             rule: "the same kind of history replayed in 2 separate processes (different environment size, ASLR) whose stdout (transcript plus EGraph::dump output) must be byte-identical and (for languages without Symbol payloads) agree with the in-process transcript; in half of the cases the second process first interns the history's Symbol payloads in reverse order, as another thread could have done",
+            case_timeout_s: tier.pick(30, 120),
+            exhaustive: false,
+        }));
+    }
+    {
+        let mut cfg = MixedCfg::for_lang(LangId::Core);
+        cfg.max_ops = tier.pick(8, 12);
+        cfg.hist.namings = crate::tm::Naming::diverse();
+        stages.push(Box::new(Stage {
+            name: "processes-core-under-dump",
+            source: random(move || mixed_strategy(cfg.clone()), tier.pick(640, 6000)),
+            run: run_under_dump,
+            panic_is_violation: false,
+            render: |c: &Mixed| c.render(),
+            rule: "the same kind of history, in a child process whose stdout is discarded: the transcript is taken once undisturbed and three times while another thread of that process calls EGraph::dump() on its own e-graph in a loop; all four transcripts must be byte-identical (printing in one thread must not change what another thread prints)",
             case_timeout_s: tier.pick(30, 120),
             exhaustive: false,
         }));
